@@ -167,6 +167,14 @@ def cases(tier):
             for pi in (True, False):
                 for order in (("A", "B"), ("B", "A")):
                     cs.append(F.ring(2, {1: mat}, fixed=steps, menu=(1, 2), end=8, order=order, pull_initial_first=pi))
+    # other time scales (one unit = 100 microseconds / one week) and consumers that start a fraction of a step later
+    for unit in (100, 7 * 86400 * 10**6):
+        for k1 in ("none", "F=", "F-", "FF", "U", "F=L"):
+            cs.append(dict(F.ring(2, {1: mats[k1]}, menu=(1, 2), end=5), unit_us=unit))
+    for k1 in ("F=", "F+", "FF", "FsF"):
+        for starts in ((0, 0.5), (0, 1.5), (0.25, 0), (0, 2.75)):
+            cs.append(F.ring(2, {1: mats[k1]}, menu=(1, 2), end=6, starts=starts))
+            cs.append(F.ring(2, {0: mats[k1]}, menu=(1, 2), end=6, starts=starts, order=("B", "A")))
     # 3-rings, choice mode
     mats3 = materials(6, q)
     for k, m in mats3.items():
